@@ -87,3 +87,21 @@ func init() {
 		Assumptions: []string{"dynamic values belong to the JSON value domain (stated by C06) incl. json.Number and the int64/float64 produced by its conversion", "elements of containers other than dynamic JSON values are non-nil", "pure accessors (Spec(), expandedAnalyzer()) return the same object when called twice", trustDeps},
 	}
 }
+
+func init() {
+	Properties["C20"] = PropSpec{
+		Rules:       []Rule{ResultAlgebra, ResLinear},
+		Explanation: "RESULT-ALGEBRA, structural laws checked on SSA rather than by running sequences: each of Merge/MergeAsErrors/MergeAsWarnings/mergeForField/mergeForSlice tests its operand against nil, visits all operands (no return before the loop is exhausted), and applies exactly once per non-nil operand, on every path, the documented matrix of effects (which of AddErrors/AddWarnings receives the operand's Errors and Warnings, MatchCount += operand.MatchCount, resetCaches, redeem under wantsRedeemOnMerge) and no other; AddErrors/AddWarnings only write append(<own list>, e), only on the e != nil edge, guarded by a condition that depends on comparing e.Error() with the Error() of the elements of the same list and that is recomputed per message (backward slice does not cross the outer loop header); IsValid is len(Errors)==0, queries dereference the receiver only when non-nil, Inc adds one; RES-ALIAS: no slice header of Errors/Warnings escapes or enters a Result (only elements are copied), which is what makes later changes to an operand invisible in the merged result; RES-LINEAR: operands are not used after their release.",
+		NotDecided:  "Equivalence with an ordered-set model over arbitrary operation sequences (nothing is executed): the laws above are the structural facts that equivalence rests on.",
+		Assumptions: []string{"errors.CompositeValidationError copies its arguments (read from errors@v0.22.1)", trustDeps},
+	}
+}
+
+func init() {
+	Properties["C03"] = PropSpec{
+		Rules:       []Rule{RuleSeq, NoDrop, RunState},
+		Explanation: "(being extended) RULE-SEQ: every documented rule function is called by (*SpecValidator).Validate and its result is the operand of errs.Merge; every return other than the last is guarded by !Options.ContinueOnErrors && errs.HasErrors(), and the last is dominated by all rule calls. NO-DROP: every *Result produced in spec.go/default_validator.go/example_validator.go/helpers.go is merged, returned, or returned to the pool only where HasErrorsOrWarnings() is false.",
+		NotDecided:  "The predicate inside each rule (value-level).",
+		Assumptions: []string{trustDeps},
+	}
+}
